@@ -222,6 +222,17 @@ def runModel (st : St) (q : Stmt) (having : List HTok) : String :=
             if q.orderBy.isEmpty then showTable cols rows false
             else showTable cols (canonTies S q.orderBy cols rows) true
 
+/-- A predicate bounded by bindings ("id"@[?lo,?hi]) is only given a meaning when every row that reaches
+    the clause holds a time for those bindings (the engine reports an error otherwise). -/
+def boundsUndefined (scan : List Triple) (glo ghi : Option Int) (cs : List Clause) : Bool :=
+  (List.range cs.length).any fun i =>
+    match cs[i]? with
+    | none => false
+    | some c =>
+      (c.pLowerAlias ≠ [] || c.pUpperAlias ≠ []) &&
+      (solutions scan glo ghi (cs.take i)).any fun r =>
+        (c.pLowerAlias ≠ [] && (rowTime r c.pLowerAlias).isNone) || (c.pUpperAlias ≠ [] && (rowTime r c.pUpperAlias).isNone)
+
 /-- Reference pipeline: the solutions of the pattern (join over a scan), then the declarative stages:
     one row per group with its aggregates, rows satisfying HAVING, sorted permutation, first n. -/
 def runSpec (st : St) (q : Stmt) (having : List HTok) : String :=
@@ -231,6 +242,7 @@ def runSpec (st : St) (q : Stmt) (having : List HTok) : String :=
   | some gs =>
     if !q.filters.isEmpty then "unsupported" else
     let scan : List Triple := gs.flatMap fun g => g.master.filterMap fun v => st.triple v.id
+    if boundsUndefined scan (q.lower.map (·.nanos)) (q.upper.map (·.nanos)) q.clauses then "unsupported" else
     let sols := solutions scan (q.lower.map (·.nanos)) (q.upper.map (·.nanos)) q.clauses
     let cols := dedup q.outputBindings
     let staged : Except QErr (List Row) :=
@@ -253,6 +265,28 @@ def runSpec (st : St) (q : Stmt) (having : List HTok) : String :=
         match q.limit with
         | some n => s!"limit={n} " ++ showTable cols rows ordered
         | none => showTable cols rows ordered
+
+/-- The reference pipeline reads ORDER BY, GROUP BY and LIMIT as the generator of the text meant them
+    (`xob=`, `xgb=`, `xlim=`), not as the parser's hooks recorded them: a hook that distorts them is
+    then visible as a contradiction with the reference. -/
+def withIntent (ws : List String) (q : Stmt) : Stmt :=
+  let q := match kv ws "xob" with
+    | some v => match listOf "," (fun x => match x.splitOn ":" with
+        | [b, d] => do pure (← hexStr b, d == "1")
+        | _ => none) v with
+      | some ob => { q with orderBy := ob }
+      | none => q
+    | none => q
+  let q := match kv ws "xgb" with
+    | some v => match listOf "," hexStr v with
+      | some gb => { q with groupBy := gb }
+      | none => q
+    | none => q
+  match kv ws "xlim" with
+  | some v => match v.toInt? with
+    | some n => { q with limit := some n }
+    | none => q
+  | none => q
 
 def step (useSpec : Bool) (st : St) (line : String) : St × String :=
   match words line with
@@ -287,7 +321,7 @@ def step (useSpec : Bool) (st : St) (line : String) : St × String :=
     | some q =>
       match parseHaving ws with
       | none => (st, "bad-op")
-      | some hv => (st, if useSpec then runSpec st q hv else runModel st q hv)
+      | some hv => (st, if useSpec then runSpec st (withIntent ws q) hv else runModel st q hv)
   | "M" :: _ => (st, "-")
   | _ => (st, "bad-op")
 
